@@ -281,6 +281,7 @@ Section SignedGen.
       - intros Hin. eapply (cl_canonical_transfer cov0 r3 rs).
         + exact S30.
         + unfold r3, r2, r1. cbn [r_chunked rp_edits director]. apply sign_chunked.
+        + unfold r3, r2, r1. cbn [r_clen rp_edits director]. apply sign_clen.
         + exact Hin.
         + exact Hcl. }
     eapply same_signed_trans; [exact S4 | exact S30].
@@ -356,7 +357,7 @@ Lemma signer_theorem_is_an_instance cv cvh protected c parsed ident ip r0 b :
   Signer.canon_rsa cv (Signer.received cv cvh c parsed ident ip r0) = Signer.canon_rsa cv (Signer.at_sign_time c parsed ident r0).
 Proof.
   intros H1 H2 H3 H4 H5 Hb Hp Hf Hbd Hc Hcl.
-  destruct (Signer_proofs.at_sign_time_fields c parsed ident r0) as (F1&F2&F3&F4&F5&F6).
+  destruct (Signer_proofs.at_sign_time_fields c parsed ident r0) as (F1&F2&F3&F4&F5&F6&F7).
   unfold Signer.received.
   apply (gen_signed_is_received cv cvh protected H1 H2 H3 H4 c ip (Signer.at_sign_time c parsed ident r0) b); try assumption.
   - rewrite F2. exact Hp.
